@@ -60,17 +60,6 @@ func (m *Module) addDataDefinition(d Definition) error {
 }
 
 func (m *Module) addDataDefinitionWithoutOwning(d Definition) error {
-	if c, isChoice := d.(*Choice); isChoice {
-		for _, k := range c.Cases() {
-			for _, kdef := range k.DataDefinitions() {
-				// recurse in case it's another choice
-				if err := m.indexDataDefinition(kdef); err != nil {
-					return err
-				}
-			}
-		}
- 	}
-	
 	if err := m.indexDataDefinition(d); err != nil {
 		return err
 	}
@@ -79,6 +68,16 @@ func (m *Module) addDataDefinitionWithoutOwning(d Definition) error {
 }
 
 func (m *Module) indexDataDefinition(def Definition) error {
+	if c, isChoice := def.(*Choice); isChoice {
+		for _, k := range c.Cases() {
+			for _, kdef := range k.DataDefinitions() {
+				// recurses when kdef is another choice
+				if err := m.indexDataDefinition(kdef); err != nil {
+					return err
+				}
+			}
+		}
+	}
 	if m.dataDefsIndex == nil {
 		m.dataDefsIndex = make(map[string]Definition)
 	} else if _, exists := m.dataDefsIndex[def.Ident()]; exists {
@@ -525,17 +524,6 @@ func (m *ChoiceCase) addDataDefinition(d Definition) error {
 }
 
 func (m *ChoiceCase) addDataDefinitionWithoutOwning(d Definition) error {
-	if c, isChoice := d.(*Choice); isChoice {
-		for _, k := range c.Cases() {
-			for _, kdef := range k.DataDefinitions() {
-				// recurse in case it's another choice
-				if err := m.indexDataDefinition(kdef); err != nil {
-					return err
-				}
-			}
-		}
- 	}
-	
 	if err := m.indexDataDefinition(d); err != nil {
 		return err
 	}
@@ -544,6 +532,16 @@ func (m *ChoiceCase) addDataDefinitionWithoutOwning(d Definition) error {
 }
 
 func (m *ChoiceCase) indexDataDefinition(def Definition) error {
+	if c, isChoice := def.(*Choice); isChoice {
+		for _, k := range c.Cases() {
+			for _, kdef := range k.DataDefinitions() {
+				// recurses when kdef is another choice
+				if err := m.indexDataDefinition(kdef); err != nil {
+					return err
+				}
+			}
+		}
+	}
 	if m.dataDefsIndex == nil {
 		m.dataDefsIndex = make(map[string]Definition)
 	} else if _, exists := m.dataDefsIndex[def.Ident()]; exists {
@@ -729,17 +727,6 @@ func (m *Container) addDataDefinition(d Definition) error {
 }
 
 func (m *Container) addDataDefinitionWithoutOwning(d Definition) error {
-	if c, isChoice := d.(*Choice); isChoice {
-		for _, k := range c.Cases() {
-			for _, kdef := range k.DataDefinitions() {
-				// recurse in case it's another choice
-				if err := m.indexDataDefinition(kdef); err != nil {
-					return err
-				}
-			}
-		}
- 	}
-	
 	if err := m.indexDataDefinition(d); err != nil {
 		return err
 	}
@@ -748,6 +735,16 @@ func (m *Container) addDataDefinitionWithoutOwning(d Definition) error {
 }
 
 func (m *Container) indexDataDefinition(def Definition) error {
+	if c, isChoice := def.(*Choice); isChoice {
+		for _, k := range c.Cases() {
+			for _, kdef := range k.DataDefinitions() {
+				// recurses when kdef is another choice
+				if err := m.indexDataDefinition(kdef); err != nil {
+					return err
+				}
+			}
+		}
+	}
 	if m.dataDefsIndex == nil {
 		m.dataDefsIndex = make(map[string]Definition)
 	} else if _, exists := m.dataDefsIndex[def.Ident()]; exists {
@@ -1025,17 +1022,6 @@ func (m *List) addDataDefinition(d Definition) error {
 }
 
 func (m *List) addDataDefinitionWithoutOwning(d Definition) error {
-	if c, isChoice := d.(*Choice); isChoice {
-		for _, k := range c.Cases() {
-			for _, kdef := range k.DataDefinitions() {
-				// recurse in case it's another choice
-				if err := m.indexDataDefinition(kdef); err != nil {
-					return err
-				}
-			}
-		}
- 	}
-	
 	if err := m.indexDataDefinition(d); err != nil {
 		return err
 	}
@@ -1044,6 +1030,16 @@ func (m *List) addDataDefinitionWithoutOwning(d Definition) error {
 }
 
 func (m *List) indexDataDefinition(def Definition) error {
+	if c, isChoice := def.(*Choice); isChoice {
+		for _, k := range c.Cases() {
+			for _, kdef := range k.DataDefinitions() {
+				// recurses when kdef is another choice
+				if err := m.indexDataDefinition(kdef); err != nil {
+					return err
+				}
+			}
+		}
+	}
 	if m.dataDefsIndex == nil {
 		m.dataDefsIndex = make(map[string]Definition)
 	} else if _, exists := m.dataDefsIndex[def.Ident()]; exists {
@@ -1897,17 +1893,6 @@ func (m *Grouping) addDataDefinition(d Definition) error {
 }
 
 func (m *Grouping) addDataDefinitionWithoutOwning(d Definition) error {
-	if c, isChoice := d.(*Choice); isChoice {
-		for _, k := range c.Cases() {
-			for _, kdef := range k.DataDefinitions() {
-				// recurse in case it's another choice
-				if err := m.indexDataDefinition(kdef); err != nil {
-					return err
-				}
-			}
-		}
- 	}
-	
 	if err := m.indexDataDefinition(d); err != nil {
 		return err
 	}
@@ -1916,6 +1901,16 @@ func (m *Grouping) addDataDefinitionWithoutOwning(d Definition) error {
 }
 
 func (m *Grouping) indexDataDefinition(def Definition) error {
+	if c, isChoice := def.(*Choice); isChoice {
+		for _, k := range c.Cases() {
+			for _, kdef := range k.DataDefinitions() {
+				// recurses when kdef is another choice
+				if err := m.indexDataDefinition(kdef); err != nil {
+					return err
+				}
+			}
+		}
+	}
 	if m.dataDefsIndex == nil {
 		m.dataDefsIndex = make(map[string]Definition)
 	} else if _, exists := m.dataDefsIndex[def.Ident()]; exists {
@@ -2367,17 +2362,6 @@ func (m *RpcInput) addDataDefinition(d Definition) error {
 }
 
 func (m *RpcInput) addDataDefinitionWithoutOwning(d Definition) error {
-	if c, isChoice := d.(*Choice); isChoice {
-		for _, k := range c.Cases() {
-			for _, kdef := range k.DataDefinitions() {
-				// recurse in case it's another choice
-				if err := m.indexDataDefinition(kdef); err != nil {
-					return err
-				}
-			}
-		}
- 	}
-	
 	if err := m.indexDataDefinition(d); err != nil {
 		return err
 	}
@@ -2386,6 +2370,16 @@ func (m *RpcInput) addDataDefinitionWithoutOwning(d Definition) error {
 }
 
 func (m *RpcInput) indexDataDefinition(def Definition) error {
+	if c, isChoice := def.(*Choice); isChoice {
+		for _, k := range c.Cases() {
+			for _, kdef := range k.DataDefinitions() {
+				// recurses when kdef is another choice
+				if err := m.indexDataDefinition(kdef); err != nil {
+					return err
+				}
+			}
+		}
+	}
 	if m.dataDefsIndex == nil {
 		m.dataDefsIndex = make(map[string]Definition)
 	} else if _, exists := m.dataDefsIndex[def.Ident()]; exists {
@@ -2545,17 +2539,6 @@ func (m *RpcOutput) addDataDefinition(d Definition) error {
 }
 
 func (m *RpcOutput) addDataDefinitionWithoutOwning(d Definition) error {
-	if c, isChoice := d.(*Choice); isChoice {
-		for _, k := range c.Cases() {
-			for _, kdef := range k.DataDefinitions() {
-				// recurse in case it's another choice
-				if err := m.indexDataDefinition(kdef); err != nil {
-					return err
-				}
-			}
-		}
- 	}
-	
 	if err := m.indexDataDefinition(d); err != nil {
 		return err
 	}
@@ -2564,6 +2547,16 @@ func (m *RpcOutput) addDataDefinitionWithoutOwning(d Definition) error {
 }
 
 func (m *RpcOutput) indexDataDefinition(def Definition) error {
+	if c, isChoice := def.(*Choice); isChoice {
+		for _, k := range c.Cases() {
+			for _, kdef := range k.DataDefinitions() {
+				// recurses when kdef is another choice
+				if err := m.indexDataDefinition(kdef); err != nil {
+					return err
+				}
+			}
+		}
+	}
 	if m.dataDefsIndex == nil {
 		m.dataDefsIndex = make(map[string]Definition)
 	} else if _, exists := m.dataDefsIndex[def.Ident()]; exists {
@@ -2843,17 +2836,6 @@ func (m *Notification) addDataDefinition(d Definition) error {
 }
 
 func (m *Notification) addDataDefinitionWithoutOwning(d Definition) error {
-	if c, isChoice := d.(*Choice); isChoice {
-		for _, k := range c.Cases() {
-			for _, kdef := range k.DataDefinitions() {
-				// recurse in case it's another choice
-				if err := m.indexDataDefinition(kdef); err != nil {
-					return err
-				}
-			}
-		}
- 	}
-	
 	if err := m.indexDataDefinition(d); err != nil {
 		return err
 	}
@@ -2862,6 +2844,16 @@ func (m *Notification) addDataDefinitionWithoutOwning(d Definition) error {
 }
 
 func (m *Notification) indexDataDefinition(def Definition) error {
+	if c, isChoice := def.(*Choice); isChoice {
+		for _, k := range c.Cases() {
+			for _, kdef := range k.DataDefinitions() {
+				// recurses when kdef is another choice
+				if err := m.indexDataDefinition(kdef); err != nil {
+					return err
+				}
+			}
+		}
+	}
 	if m.dataDefsIndex == nil {
 		m.dataDefsIndex = make(map[string]Definition)
 	} else if _, exists := m.dataDefsIndex[def.Ident()]; exists {
@@ -3107,17 +3099,6 @@ func (m *Augment) addDataDefinition(d Definition) error {
 }
 
 func (m *Augment) addDataDefinitionWithoutOwning(d Definition) error {
-	if c, isChoice := d.(*Choice); isChoice {
-		for _, k := range c.Cases() {
-			for _, kdef := range k.DataDefinitions() {
-				// recurse in case it's another choice
-				if err := m.indexDataDefinition(kdef); err != nil {
-					return err
-				}
-			}
-		}
- 	}
-	
 	if err := m.indexDataDefinition(d); err != nil {
 		return err
 	}
@@ -3126,6 +3107,16 @@ func (m *Augment) addDataDefinitionWithoutOwning(d Definition) error {
 }
 
 func (m *Augment) indexDataDefinition(def Definition) error {
+	if c, isChoice := def.(*Choice); isChoice {
+		for _, k := range c.Cases() {
+			for _, kdef := range k.DataDefinitions() {
+				// recurses when kdef is another choice
+				if err := m.indexDataDefinition(kdef); err != nil {
+					return err
+				}
+			}
+		}
+	}
 	if m.dataDefsIndex == nil {
 		m.dataDefsIndex = make(map[string]Definition)
 	} else if _, exists := m.dataDefsIndex[def.Ident()]; exists {
@@ -4066,17 +4057,6 @@ func (m *Extension) addDataDefinition(d Definition) error {
 }
 
 func (m *Extension) addDataDefinitionWithoutOwning(d Definition) error {
-	if c, isChoice := d.(*Choice); isChoice {
-		for _, k := range c.Cases() {
-			for _, kdef := range k.DataDefinitions() {
-				// recurse in case it's another choice
-				if err := m.indexDataDefinition(kdef); err != nil {
-					return err
-				}
-			}
-		}
- 	}
-	
 	if err := m.indexDataDefinition(d); err != nil {
 		return err
 	}
@@ -4085,6 +4065,16 @@ func (m *Extension) addDataDefinitionWithoutOwning(d Definition) error {
 }
 
 func (m *Extension) indexDataDefinition(def Definition) error {
+	if c, isChoice := def.(*Choice); isChoice {
+		for _, k := range c.Cases() {
+			for _, kdef := range k.DataDefinitions() {
+				// recurses when kdef is another choice
+				if err := m.indexDataDefinition(kdef); err != nil {
+					return err
+				}
+			}
+		}
+	}
 	if m.dataDefsIndex == nil {
 		m.dataDefsIndex = make(map[string]Definition)
 	} else if _, exists := m.dataDefsIndex[def.Ident()]; exists {
